@@ -75,6 +75,8 @@ def gen_src(rng):
         k = rng.randrange(5)
         parts.append(['Cited[#c1] and [#c2;].\n\n[#c1]: Doe. *Book*.\n\n[#c2]: Roe. *Paper*.', 'Note[^n1] and inline[^an inline note].\n\n[^n1]: The note.',
                       'A [?term] here.\n\n[?term]: Its definition.', 'The AB1 abbreviation.\n\n[>AB1]: Abbreviation One', 'Mixed[^m][#c9] [?g].\n\n[^m]: n\n\n[#c9]: c\n\n[?g]: d'][k])
+    if rng.random() < 0.15:
+        parts.append('again[^rn] ![x1](pic.png) and[^rn] ![x2](other.png) and[^rn] ![x3](tiny.gif)\n\n[^rn]: called three times')
     if rng.random() < 0.25:
         parts.insert(rng.randrange(len(parts) + 1), '{{TOC}}')
     rng.shuffle(parts)
@@ -99,13 +101,17 @@ class Judge:
     def __init__(self, r, fname, rq, src):
         self.r, self.fname, self.rq, self.src = r, fname, rq, src
 
+    randomised = False
+
     def bad(self, key, what, detail=''):
+        if self.randomised and key == 'main-differs':
+            return          # --random / --unique: the anchors differ from run to run by design, the reference rendering cannot be byte-compared
         self.r.violate('%s:%s' % (self.fname, key), '%s: %s' % (self.fname, what), dict(requests=[self.rq]), (detail + '\nsource: ' + core.show(self.src, 500))[:3000])
 
 
 def check_package(r, s, rng, fname, src, tdir, with_dir):
     fmt = D.FMT[fname]
-    ext = D.EXT_CLI
+    ext = D.EXT_CLI | rng.choice([0, 0, 0, 0, D.EXT['RANDOM_FOOT'], D.EXT['RANDOM_LABELS'], D.EXT['RANDOM_FOOT'] | D.EXT['RANDOM_LABELS']])
     rq = D.req_to_json('asan', 'ASSETS', fmt, ext, 0, 1 if with_dir else 0, [src, tdir])
     rep = s.call('asan', 'ASSETS', fmt, ext, 0, 1 if with_dir else 0, [src, tdir], crash_is_violation=True)
     r.evaluations += 1
@@ -114,6 +120,7 @@ def check_package(r, s, rng, fname, src, tdir, with_dir):
         return
     data, table_raw = rep.fields[0], rep.fields[1].decode('utf-8', 'replace')
     J = Judge(r, fname, rq, src)
+    J.randomised = bool(ext & (D.EXT["RANDOM_FOOT"] | D.EXT["RANDOM_LABELS"]))
     table = [tuple(l.split('\t')) for l in table_raw.split('\n') if l]
     # ---- archive integrity
     if data[-22:-18] != b'PK\x05\x06' and data.rfind(b'PK\x05\x06') != len(data) - 22:
